@@ -502,7 +502,7 @@ impl Check for HugeCheck {
 }
 
 pub fn run_all(ctx: &mut Ctx, replay: Option<&Path>) {
-    ctx.rule("single: case = triple of f64 inputs (+ a finite scalar): construction legality and bit-exact round trip, agreement of cmp/partial_cmp/==/</<=/> with the numeric order on all pairs (plus Default and INFINITY), antisymmetry/transitivity on all triples, sort/min/max vs sorting the raw values, closure of + - (objective, objective), * / (objective, finite scalar) and unary -; non-trivial = a triple involving +-0, inf or MAX. multi-long-vectors: pairs of vectors of 4 095 - 131 072 components (compact cases: fill values plus up to three edited positions incl. the first and the last) against the same legality and dominance oracles. multi: case = triple of vectors (length 0-3 exhaustively and randomly; random long vectors of 4-8 and 30-70 components with near copies that differ in up to three positions): both constructors, Pareto dominance vs an independent reference on all pairs, reflexivity, Equal <=> ==, antisymmetry, transitivity of < and <=; non-trivial = has a trade-off pair of length >= 2, a length mismatch or a dominance; distinct by case");
+    ctx.rule("single: case = triple of f64 inputs (+ a finite scalar): construction legality and bit-exact round trip, agreement of cmp/partial_cmp/==/!=/</<=/>/>=/max/min with the numeric order on all pairs (plus Default and INFINITY), antisymmetry/transitivity on all triples, sort/min/max vs sorting the raw values, closure of + - (objective, objective), * / (objective, finite scalar) and unary -; non-trivial = a triple involving +-0, inf or MAX. multi-long-vectors: pairs of vectors of 4 095 - 131 072 components (compact cases: fill values plus up to three edited positions incl. the first and the last) against the same legality and dominance oracles. multi: case = triple of vectors (length 0-3 exhaustively and randomly; random long vectors of 4-8 and 30-70 components with near copies that differ in up to three positions): both constructors, Pareto dominance vs an independent reference on all pairs, the operators < <= > >= != saying exactly what partial_cmp says (all false / != true for incomparable vectors, incl. vectors of different length), reflexivity, Equal <=> ==, antisymmetry, transitivity of < and <=; non-trivial = has a trade-off pair of length >= 2, a length mismatch or a dominance. Should the tree give an objective type a Deserialize impl (the pinned tree does not; resolved at compile time), every generated value / vector is also read back from RON and CBOR and whatever comes out must be legal; distinct by case");
     ctx.assume("scalars for * and / are finite f64 (NaN/inf scalars are outside the property)");
     let s = SingleCheck;
     let m = MultiCheck;
